@@ -134,8 +134,17 @@ fn build(cfg: &Cfg, ring: &Ring, data: &[u8], seed: u64, tmp: &std::path::Path) 
                     write_out!(b);
                 }
                 Enc::V1(sym) => {
-                    let mut b = $plain.seipd_v1(&mut rng, *sym);
-                    common!(&mut b);
+                    // (the settings are made before or after the encryption is chosen: the builder
+                    //  carries them over)
+                    let mut p = $plain;
+                    let early = seed % 2 == 1;
+                    if early {
+                        common!(&mut p);
+                    }
+                    let mut b = p.seipd_v1(&mut rng, *sym);
+                    if !early {
+                        common!(&mut b);
+                    }
                     for (pw, kind) in &cfg.passwords {
                         let s = s2k(&mut rng, *kind);
                         b.encrypt_with_password(s, &Password::from(&pw[..])).map_err(|e| e.to_string())?;
@@ -153,8 +162,15 @@ fn build(cfg: &Cfg, ring: &Ring, data: &[u8], seed: u64, tmp: &std::path::Path) 
                 }
                 Enc::V2(sym, aead, cs) => {
                     let cs = ChunkSize::try_from(*cs).map_err(|_| "chunk size".to_string())?;
-                    let mut b = $plain.seipd_v2(&mut rng, *sym, *aead, cs);
-                    common!(&mut b);
+                    let mut p = $plain;
+                    let early = seed % 2 == 1;
+                    if early {
+                        common!(&mut p);
+                    }
+                    let mut b = p.seipd_v2(&mut rng, *sym, *aead, cs);
+                    if !early {
+                        common!(&mut b);
+                    }
                     for (pw, kind) in &cfg.passwords {
                         let s = s2k(&mut rng, *kind);
                         b.encrypt_with_password(&mut rng, s, &Password::from(&pw[..])).map_err(|e| e.to_string())?;
